@@ -20,6 +20,7 @@ mod c11;
 mod c12;
 mod c13;
 mod c14;
+mod c15;
 mod c16;
 mod c17;
 mod c18;
@@ -109,6 +110,7 @@ fn main() {
         "C12" => c12::run(&mut ctx),
         "C13" => c13::run(&mut ctx),
         "C14" => c14::run(&mut ctx),
+        "C15" => c15::run(&mut ctx),
         "C16" => c16::run(&mut ctx),
         "C17" => c17::run(&mut ctx),
         "C18" => c18::run(&mut ctx),
